@@ -1,7 +1,7 @@
 (* Entry_velocity.v -- flat-list entry points of the C18 models for the extracted driver. *)
 From Coq Require Import ZArith List Bool.
 From PV Require Import Num Model_pathlines.
-From PV.gen Require Import Gen_velocity Gen_velocity_utils.
+From PV.gen Require Import Gen_velocity Gen_velocity_utils Gen_pathlines.
 Import ListNotations.
 Local Open Scope num_scope.
 
@@ -108,4 +108,108 @@ Section Entry.
   (* mode 0: regular_steps None; mode 1: Some n.   input: path.t *)
   Definition run_timestamps (mode : Z) (n : nat) (ts : list F) : res (list F) :=
     Ok (timestamps ts (if Z.eqb mode 0 then None else Some n)).
+
+  (* ---- the PUBLIC wrappers as generated from pydrex/velocity.py: letters 0..5 = X Y Z x y z;
+          which = 0 velocity callable, 1 gradient callable; t x0 x1 x2 params... (cell_2d with ONE
+          parameter: edge_length left at its default) ---- *)
+  Definition run_gen_wrap (which flow hl vl : Z) (xs : list F) : res (list F) :=
+    match xs with
+    | t :: x0 :: x1 :: x2 :: ps =>
+        let x := aolv [x0; x1; x2] in
+        let u := Z.eqb which 0 in
+        let r := match flow, ps with
+                 | 0%Z, [p] => if u then k_simple_shear_2d_wrap_u hl vl p t x else k_simple_shear_2d_wrap_L hl vl p t x
+                 | 1%Z, [p; q] => if u then k_cell_2d_wrap_u hl vl p q t x else k_cell_2d_wrap_L hl vl p q t x
+                 | 1%Z, [p] => if u then k_cell_2d_wrap_u_default hl vl p t x else k_cell_2d_wrap_L_default hl vl p t x
+                 | 2%Z, [p] => if u then k_corner_2d_wrap_u hl vl p t x else k_corner_2d_wrap_L hl vl p t x
+                 | _, _ => Err OtherError
+                 end in
+        match r with
+        | Err e => Err e
+        | Ok a => Ok (arr_to_list (if u then 3 else 9) a)
+        end
+    | _ => Err OtherError
+    end.
+
+  (* ---- the code GENERATED from pydrex/pathlines.py (gen/Gen_pathlines.v), dimension 3 ---- *)
+  (* pt(3) mn(3) mx(3) *)
+  Definition run_gen_is_inside (xs : list F) : res (list F) :=
+    Ok [k_is_inside_n3 (aolv (firstn 3 xs)) (aolv (firstn 3 (skipn 3 xs))) (aolv (firstn 3 (skipn 6 xs)))].
+
+  (* which = 0: _ivp_func (3 numbers), 1: _ivp_jac (9 numbers), with the callables of a built-in flow;
+     pt(3) mn(3) mx(3) params... *)
+  Definition run_gen_ivp (which flow hl vl : Z) (xs : list F) : res (list F) :=
+    let ps := skipn 9 xs in
+    let gv := fun p => wrapper_velocity flow hl vl ps zero p in
+    let gg := fun p => wrapper_gradient flow hl vl ps zero p in
+    let pt := aolv (firstn 3 xs) in
+    let mn := aolv (firstn 3 (skipn 3 xs)) in
+    let mx := aolv (firstn 3 (skipn 6 xs)) in
+    if Z.eqb which 0 then
+      match k_ivp_func_n3 zero pt gv gg mn mx with Err e => Err e | Ok a => Ok (arr_to_list 3 a) end
+    else
+      match k_ivp_jac_n3 zero pt gv gg mn mx with Err e => Err e | Ok a => Ok (arr_to_list 9 a) end.
+
+  (* the generated event closure replayed over a recorded call history, its two state variables
+     threaded from call to call; same input as run_event; output: the returned values, then the final
+     (previous time, strain) *)
+  Fixpoint gen_event_loop (flow hl vl : Z) (ps : list F) (mn mx : arr F) (tp s : F) (n : nat) (xs : list F)
+    : res (list F) :=
+    match n with
+    | O => Ok [tp; s]
+    | S n' =>
+        match xs with
+        | t :: x0 :: x1 :: x2 :: e :: rest =>
+            match k_terminate_n3 tp s t (aolv [x0; x1; x2]) (fun p => wrapper_velocity flow hl vl ps zero p)
+                                 (fun p => wrapper_gradient flow hl vl ps zero p) (fun _ => e) mn mx with
+            | Err er => Err er
+            | Ok (tp', s', v) =>
+                match gen_event_loop flow hl vl ps mn mx tp' s' n' rest with
+                | Err er => Err er
+                | Ok vs => Ok (v :: vs)
+                end
+            end
+        | _ => Err OtherError
+        end
+    end.
+
+  Definition run_gen_event (flow hl vl : Z) (np ncalls : nat) (xs : list F) : res (list F) :=
+    match xs with
+    | s0 :: r =>
+        let mn := aolv (firstn 3 r) in
+        let mx := aolv (firstn 3 (skipn 3 r)) in
+        let ps := firstn np (skipn 6 r) in
+        (* the initial state is read off the generated request: entries 19 and 20 *)
+        let rq := k_request_n3 (aolv [zero; zero; zero]) mn mx s0 in
+        gen_event_loop flow hl vl ps mn mx (rq 19%nat) (rq 20%nat) ncalls (skipn (6 + np) r)
+    | _ => Err OtherError
+    end.
+
+  (* fl(3) mn(3) mx(3) max_strain [atol rtol first_step max_step] -> the 22 numbers of the request *)
+  Definition run_gen_request (xs : list F) : res (list F) :=
+    let fl := aolv (firstn 3 xs) in
+    let mn := aolv (firstn 3 (skipn 3 xs)) in
+    let mx := aolv (firstn 3 (skipn 6 xs)) in
+    match skipn 9 xs with
+    | [ms] => Ok (arr_to_list 22 (k_request_n3 fl mn mx ms))
+    | [ms; atol; rtol; fs; mxs] => Ok (arr_to_list 22 (k_request_kw_n3 fl mn mx ms atol rtol fs mxs))
+    | _ => Err OtherError
+    end.
+
+  (* the generated post-processing for path.t of 2 or 3 entries: mode 0 None, 1 Some n (n <= 3) *)
+  Definition run_gen_timestamps (mode : Z) (n : nat) (ts : list F) : res (list F) :=
+    let t := aolv ts in
+    match length ts, (if Z.eqb mode 0 then None else Some n) with
+    | 2%nat, None => Ok (arr_to_list 2 (k_post_m2_none t))
+    | 3%nat, None => Ok (arr_to_list 3 (k_post_m3_none t))
+    | 2%nat, Some 0%nat => Ok (arr_to_list 1 (k_post_m2_s0 t))
+    | 2%nat, Some 1%nat => Ok (arr_to_list 2 (k_post_m2_s1 t))
+    | 2%nat, Some 2%nat => Ok (arr_to_list 3 (k_post_m2_s2 t))
+    | 2%nat, Some 3%nat => Ok (arr_to_list 4 (k_post_m2_s3 t))
+    | 3%nat, Some 0%nat => Ok (arr_to_list 1 (k_post_m3_s0 t))
+    | 3%nat, Some 1%nat => Ok (arr_to_list 2 (k_post_m3_s1 t))
+    | 3%nat, Some 2%nat => Ok (arr_to_list 3 (k_post_m3_s2 t))
+    | 3%nat, Some 3%nat => Ok (arr_to_list 4 (k_post_m3_s3 t))
+    | _, _ => Err OtherError
+    end.
 End Entry.
